@@ -336,7 +336,41 @@ def worker_shard(run, sh):
             return None
         return [(c["method"], c["uri"], c.get("body"), c.get("body_error")) for c in app.calls]
 
+    # heads far larger than one read, under limits that allow a large head (no per-field limit, few fields) and under the defaults:
+    # what arrives in one piece (everything already in the socket buffer when the worker reads) and in several must be treated alike
+    big_cfgs = [{"limit_request_field_size": 0, "limit_request_fields": 4}, {"limit_request_field_size": 0, "limit_request_fields": 7},
+                {"limit_request_field_size": 0, "limit_request_fields": 2, "limit_request_line": 0}, {}]
+
+    def big_heads():
+        for i in range(sh.get("n_big", 6)):
+            kind = kinds[i % 2]
+            bc = big_cfgs[(i // 2 + sh["sub"]) % len(big_cfgs)]
+            hk = kind + "/big%d" % big_cfgs.index(bc)
+            if hk not in harn:
+                cfgs[hk] = dict(cfgs[kind], **bc)
+                harn[hk] = e2.Harness(kind, cfgs[hk])
+            L = rng.choice([8100, 8300, 16500, 24000, 32700, 32800, 40000, 57400, 60000])
+            first = b"GET /big HTTP/1.1\r\nHost: h\r\nX-Big: " + b"v" * L + b"\r\n\r\n"
+            stream = first + b"GET /after-big HTTP/1.1\r\nHost: h\r\n\r\n"
+            base = calls_of(hk, stream, None, 0.0)
+            if base is None:
+                continue
+            for cuts in ([len(first) // 2], [4000, 20000][:1 + (L > 21000)], sorted(rng.sample(range(1, len(stream)), 3))):
+                segs = [b - a for a, b in zip([0] + cuts, cuts + [len(stream)])]
+                got = calls_of(hk, stream, segs, 0.02)
+                run.case(("bighead", L, tuple(cuts), hk))
+                run.count("worker_segmentations_of_heads_larger_than_one_read")
+                if got is not None and got != base:
+                    run.violation("worker/segmentation-changes-what-the-application-gets",
+                                  "%s worker, %s, a %d-byte header field: one piece -> %s; segments %s -> %s" % (
+                                      kind, bc, L, [(m, u[:30], b and len(b), e) for m, u, b, e in base], segs,
+                                      [(m, u[:30], b and len(b), e) for m, u, b, e in got]),
+                                  {"stream": stream.hex() if len(stream) < 20000 else None, "big": L, "cfg": bc, "cuts": cuts,
+                                   "origin": "workers", "worker": kind})
+                    break
+
     try:
+        big_heads()
         for k in range(sh["n"]):
             if run.enough():
                 break
@@ -602,7 +636,7 @@ def main(tier, seed):
     run = Run(PROP, tier, seed, "exploration", RULE)
     run.require("segmentations", "streams_with_accepted_request", "streams_rejected",
                 "streams_premature_end", "streams_with_trailers", "streams_pipelined",
-                "limit_shaped_streams", "big_streams", "streams_with_body_left_unread", "cap_shaped_streams", "binary_streams", "worker_segmentations",
+                "limit_shaped_streams", "big_streams", "streams_with_body_left_unread", "cap_shaped_streams", "binary_streams", "worker_segmentations", "worker_segmentations_of_heads_larger_than_one_read",
                 "worker_segmentations_keepalive", "proxy_line_streams", "proxy_line_longer_than_line_limit", "at_limit_element_streams",
                 "streams_under_fields_limit_zero", "live_segmentations", "live_class/gevent", "live_class/eventlet", "live_one_piece_all_answered")
     q = tier == "quick"
@@ -635,7 +669,7 @@ def replay(path):
     with open(path) as f:
         rec = json.load(f)
     c = rec["case"]
-    stream = bytes.fromhex(c["stream"])
+    stream = bytes.fromhex(c["stream"]) if c.get("stream") else b""
     run = Run(PROP, "quick", 0, "exploration", RULE)
     if c.get("origin") == "live" and not stream:
         print("witness without a stream (the live worker died during the sample): re-run the check")
@@ -665,6 +699,9 @@ def replay(path):
         from checks.c01 import _RecApp
         kind = c["worker"]
         cfgset = {"keepalive": 2, "threads": 2} if kind == "gthread" else {"keepalive": 2}
+        if c.get("big"):
+            cfgset.update(c["cfg"])
+            stream = b"GET /big HTTP/1.1\r\nHost: h\r\nX-Big: " + b"v" * c["big"] + b"\r\n\r\nGET /after-big HTTP/1.1\r\nHost: h\r\n\r\n"
         res = []
         cuts = c["cuts"]
         for segs in (None, [b - a for a, b in zip([0] + cuts, cuts + [len(stream)])]):
